@@ -669,6 +669,19 @@ def _p_newtype_nonclass(tree, ln, col, det, ctxd):
     return False
 
 
+def _p_version_info_compare(tree, ln, col, det, ctxd):
+    """An ordering comparison whose left operand is (an alias of) sys.version_info, under the reported node."""
+    def is_vi(n):
+        return (isinstance(n, ast.Attribute) and n.attr == "version_info") or (isinstance(n, ast.Name) and n.id == "version_info")
+    for n in _under(tree, ln, col):
+        if isinstance(n, ast.Compare):
+            operands = [n.left] + list(n.comparators)
+            for i, op in enumerate(n.ops):
+                if isinstance(op, (ast.Lt, ast.LtE, ast.Gt, ast.GtE)) and is_vi(operands[i]):
+                    return True
+    return False
+
+
 def _p_typevar_constraints(tree, ln, col, det, ctxd):
     for n in ast.walk(tree):
         if isinstance(n, ast.Call) and len(n.args) >= 3:
@@ -685,20 +698,19 @@ def _user_frames(det):
 KNOWN_CLASSES = [
     # Repaired in /repo and therefore no longer classes (a crash with one of these signatures is a NEW violation; their
     # witnesses stay in corpus/C12.jsonl as regression cases): annotCtorCall 0e3888a, whileOutsideFunction 211255f,
-    # classKeywordImplicitAny 3858618, sliceLiteralBounds 97cec89, overloadDetailEllipsis 633bfb7, suggestedTypeOfMetaclass fcd36f7.
+    # classKeywordImplicitAny 3858618, sliceLiteralBounds 97cec89, overloadDetailEllipsis 633bfb7, suggestedTypeOfMetaclass fcd36f7, matchValueNotLiteral 9d3b0d2,
+    # constrainedTypeVarBoolability 67ee234, overloadStarArgs 5bac5ce.
     # (class, kinds, signature test, syntactic predicate on (tree, lineno, col, detail, ctx))
     ("userCodeRaises", ("internal_error", "raises"), lambda s, d: _user_frames(d), lambda *a: True),
     ("unsupportedAnnotNode", ("internal_error",), lambda s, d: s == ("NotImplementedError", "annotations.py::generic_visit"), _p_annot_kind),
-    ("matchValueNotLiteral", ("internal_error",), lambda s, d: s == ("no-traceback", "Match value is not a literal"),
-     lambda t, ln, col, d, c: any(isinstance(n, ast.MatchValue) for n in nodes_at(t, ln, col))),
-    ("overloadStarArgs", ("internal_error",), lambda s, d: s == ("AssertionError", "signature.py::check_call_with_bound_args"),
-     lambda t, ln, col, d, c: any(isinstance(n, ast.Call) and (any(isinstance(a, ast.Starred) for a in n.args) or any(k.arg is None for k in n.keywords))
-                                  for n in _under(t, ln, col))),
     ("metaclassAttrRecursion", ("internal_error",), lambda s, d: s[0] == "RecursionError" and "has_attribute" in s[1],
      lambda t, ln, col, d, c: any(isinstance(n, ast.Attribute) and ((isinstance(n.value, ast.Attribute) and n.value.attr == "__class__") or
                                                                      (isinstance(n.value, ast.Call) and isinstance(n.value.func, ast.Name) and n.value.func.id == "type"))
                                   for n in _under(t, ln, col))),
-    ("constrainedTypeVarBoolability", ("internal_error",), lambda s, d: s == ("AssertionError", "boolability.py::_get_boolability_no_mvv"), _p_typevar_constraints),
+    ("versionInfoCompareRaises", ("internal_error",), lambda s, d: s == ("TypeError", "name_check_visitor.py::_visit_single_compare"), _p_version_info_compare),
+    ("protocolCacheKeyUnhashable", ("internal_error",),
+     lambda s, d: s[0] == "TypeError" and "unhashable type" in d.get("tail", "") and "_protocol_positive_cache.get(" in d.get("description", ""),
+     lambda t, ln, col, d, c: bool(nodes_at(t, ln, col))),
     ("newTypeOfNonClass", ("internal_error",), lambda s, d: s == ("AttributeError", "typeshed.py::_get_info_for_name"), _p_newtype_nonclass),
     ("stringAnnotationPosition", ("bad-col", "bad-line"), lambda s, d: True, _p_string_position),
     ("hugeConstantPower", ("timeout",), lambda s, d: True, _p_huge_power),
@@ -1143,6 +1155,18 @@ def gen_value_terms(ctx):
             a = plant(rng, a)
         if rng.random() < 0.2:
             b = plant(rng, b)
+        r = rng.random()
+        if r < 0.12 and hasattr(G, "gen_big_union"):
+            # unions of >= 10 members take MultiValuedValue's hash-set fast path (_get_known_subvals); literals, incl. unhashable
+            # ones, on either side
+            a = G.gen_big_union(rng, allow_any=rng.random() < 0.2)
+            b = rng.choice([("known", G.gen_obj(rng, 2)), ("known", rng.choice([("list", []), ("dict", [], []), ("set", [("int", 1), ("int", 2)]), ("list", [("int", 1)])])),
+                            rng.choice(a[1]), G.gen_big_union(rng), b])
+            if rng.random() < 0.3:
+                a, b = b, a
+            if rng.random() < 0.3:
+                c = G.gen_big_union(rng)
+            ctx.tag("value_big_union")
         a, b, c = G.norm_term(a), G.norm_term(b), G.norm_term(c)
         if "many" in (a[0], b[0], c[0]):
             continue
